@@ -25,21 +25,10 @@ HERE = os.path.dirname(os.path.abspath(__file__))
 
 # Genuine deviations of the unchanged code from the statement, reported in the final message of the
 # build; the integrator moves them to known_findings.json or commits a fix.
-# alias-of-alias: `typedef int FooAlias; typedef FooAlias FooAlias2; FooAlias2 f(void);` (likewise a typedef
-# of a typedef of `const char *`, `char *`, `const FooRec *`, `const void *`): the return value is written
-# WITHOUT transfer-ownership (and the function introspectable="0", "Missing (transfer) annotation"), because
-# MainTransformer._get_transfer_default_return only looks at the first alias' own target type.  The statement
-# ("returned const values and basic types are not transferred while returned non-const strings are") gives
-# these returns a default.  Keys are the exact failing inputs (return position, the typedef name, the
-# qualifier bits of the use).
-PENDING_ALIAS2 = {'FooStr2': 'none', 'FooStr3': 'none', 'FooBuf2': 'full', 'FooAlias2': 'none', 'FooCRec2': 'none',
-                  'FooCvp2': 'none'}
+# (none at present: the qualified-void c:type finding was repaired by /repo 1f72dc6, the alias-of-alias
+# return default by /repo 11a984f; both input classes are judged by the ordinary oracle, regression cases in
+# corpus/C02/qualified_void.json and corpus/C02/alias_chains.json.)
 PENDING_FINDINGS = {}
-for _name, _want in sorted(PENDING_ALIAS2.items()):
-    for _q in (0, Q_CONST, Q_VOLATILE, Q_CONST | Q_VOLATILE):
-        PENDING_FINDINGS['transfer:' + json.dumps(['return', {'k': 'typedef', 'n': _name, 'q': _q}], sort_keys=True)] = (
-            "returned %s (a typedef of a typedef) gets no default transfer-ownership, the statement requires %r: "
-            "_get_transfer_default_return does not follow an alias whose target is another alias" % (_name, _want))
 
 # ------------------------------------------------------------------ include GIRs (generated)
 HDR = '''<?xml version="1.0"?>
@@ -202,7 +191,20 @@ def classify(m, tr, node):
     if node is None:
         return None
     if isinstance(node, ast.Alias):
-        return {'t': 'alias', 'fundamental': node.target.target_fundamental, 'is_const': bool(node.target.is_const)}
+        # the target type of this alias and of every further alias lookup_typenode finds along the typedef
+        # chain (namespace lookup is the model's parameter; the walk itself is the model's)
+        links = []
+        seen = set()
+        cur = node
+        while isinstance(cur, ast.Alias) and id(cur) not in seen:
+            seen.add(id(cur))
+            tt = cur.target
+            links.append({'fundamental': tt.target_fundamental, 'giname': tt.target_giname, 'ctype': tt.ctype,
+                          'is_const': bool(tt.is_const)})
+            if not tt.target_giname:
+                break
+            cur = tr.lookup_typenode(tt)
+        return {'t': 'alias', 'links': links}
     if isinstance(node, ast.Boxed):
         return {'t': 'boxed'}
     if isinstance(node, (ast.Record, ast.Union)):
